@@ -7,7 +7,7 @@ from harness import gen as G
 from harness import htaio
 from harness.props import common as C
 
-N_CASES = {"quick": 150, "thorough": 2400}
+N_CASES = {"quick": 240, "thorough": 2400}
 SHRINK = True
 KERNEL_LAUNCH = {"cudaLaunchKernel", "cudaLaunchKernelExC", "runFunction - job_prep_and_submit_for_execution"}
 MEM_LAUNCH = {"cudaMemsetAsync", "cudaMemcpyAsync"}
